@@ -6,8 +6,9 @@ Open Scope Qc_scope.
 Definition nonneg_data (data : list Energy) : Prop :=
   Forall (fun e => is_out e = false -> Forall (fun v => 0 <= v) (e_vals e)) data.
 
-(** values are zero or at least 0.01 kWh *)
-Definition zg (v : Qc) : Prop := v = 0 \/ qfrac 1 100 <= v.
+(** values are zero or positive (before fix c3bd83b the step functions compared a production with 1e-3 kWh and the domain
+    was "zero or at least 0.01 kWh"; nothing of the kind is needed any more: [dom_of_nonneg]) *)
+Definition zg (v : Qc) : Prop := v = 0 \/ 0 < v.
 Definition dom_data (data : list Energy) : Prop :=
   Forall (fun e => is_out e = false -> Forall zg (e_vals e)) data.
 
@@ -15,7 +16,7 @@ Definition dom_data (data : list Energy) : Prop :=
 Definition nonneg_datab (data : list Energy) : bool :=
   forallb (fun e => is_out e || forallb (fun v => qleb 0 v) (e_vals e)) data.
 Definition dom_datab (data : list Energy) : bool :=
-  forallb (fun e => is_out e || forallb (fun v => qeqb v 0 || qleb (qfrac 1 100) v) (e_vals e)) data.
+  forallb (fun e => is_out e || forallb (fun v => qeqb v 0 || qltb 0 v) (e_vals e)) data.
 
 Lemma nonneg_datab_ok data : nonneg_datab data = true -> nonneg_data data.
 Proof.
@@ -29,10 +30,23 @@ Proof.
   unfold dom_datab, dom_data. rewrite forallb_forall, Forall_forall. intros H e He Ho.
   specialize (H e He). rewrite Ho in H. cbn in H. rewrite forallb_forall in H. apply Forall_forall.
   intros v Hv. specialize (H v Hv). unfold zg.
-  destruct (qeqb_spec v 0); [now left|]. destruct (qleb_spec (qfrac 1 100) v); [now right|discriminate].
+  destruct (qeqb_spec v 0); [now left|]. destruct (qltb_spec 0 v); [now right|discriminate].
 Qed.
 
 Lemma zg_0 : zg 0. Proof. now left. Qed.
+Lemma zg_of_nonneg v : 0 <= v -> zg v.
+Proof.
+  intros H. unfold zg. destruct (qeqb_spec v 0) as [Z|Z]; [now left|right]. toQ. absQ. cbn in *.
+  destruct (Qlt_le_dec 0 Qv) as [L|L]; [exact L|exfalso; apply Z; now apply Qle_antisym].
+Qed.
+(** the domain of the step functions is the non-negative inputs *)
+Lemma dom_of_nonneg data : nonneg_data data -> dom_data data.
+Proof.
+  unfold nonneg_data, dom_data. intros H. eapply Forall_impl; [|exact H]. intros e He Ho. specialize (He Ho).
+  eapply Forall_impl; [|exact He]. intros v. apply zg_of_nonneg.
+Qed.
+Lemma zg_all_of_nonneg dv : Forall (fun v => 0 <= v) dv -> Forall zg dv.
+Proof. intros H. eapply Forall_impl; [|exact H]. intros v. apply zg_of_nonneg. Qed.
 Lemma zg_add a b : zg a -> zg b -> zg (a + b).
 Proof. intros [->|Ha] [->|Hb]; [left; ring|right|right|right]; qlra. Qed.
 Lemma zg_nonneg a : zg a -> 0 <= a.
